@@ -301,5 +301,13 @@ Definition check (c : sx) : verdict :=
       | Some cs, Some r => check_stress P n cs r
       | _, _ => VBad
       end
+  | SList [SList [SInt 4; SInt P; SInt C; SInt n]; SList [SList consumers; rest; SInt panics]] =>
+      (* panics: calls that ended in a run-time panic; -1: the goroutines dead-locked *)
+      if negb (panics =? 0) then VPropFail 7
+      else
+      match map_opt dec_vals consumers, dec_vals rest with
+      | Some cs, Some r => check_stress P (2 * n) cs r
+      | _, _ => VBad
+      end
   | _ => VBad
   end.
